@@ -17,6 +17,7 @@ import (
 	"errors"
 	"fmt"
 	"math/big"
+	"net/http"
 	"reflect"
 	"sort"
 	"strings"
@@ -169,6 +170,8 @@ func TestVerifC19(t *testing.T) {
 				c19HostileValues(c) // see c19hostile_test.go
 			} else if c.Index%64 == 11 {
 				c19CaseValues(c) // member names inside protocol values, differing only in letter case
+			} else if c.Index%64 == 27 {
+				c.Bubble("", func() { c19PaddedBodies(c) }) // insignificant whitespace around a POST body (single message or batch)
 			} else {
 				c19Hostile(c)
 			}
@@ -1110,3 +1113,95 @@ func c19Live(c *vh.Case) {
 }
 
 var _ = testing.Short
+
+// c19PaddedBodies: JSON allows insignificant whitespace before and after a value. A POST body that is a valid message
+// or (at protocol versions that have batches) a valid batch stays one when it is padded: it is answered exactly as the
+// unpadded body is.
+func c19PaddedBodies(c *vh.Case) {
+	r := c.R
+	ctx := context.Background()
+	server := mcp.NewServer(&mcp.Implementation{Name: "s", Version: "1"}, nil)
+	server.AddTool(&mcp.Tool{Name: "echo", InputSchema: json.RawMessage(`{"type":"object"}`)}, func(context.Context, *mcp.CallToolRequest) (*mcp.CallToolResult, error) {
+		return &mcp.CallToolResult{Content: []mcp.Content{&mcp.TextContent{Text: "ok"}}}, nil
+	})
+	version := r.Choose("2025-03-26", "2025-03-26", "2025-06-18", "2025-11-25")
+	jsonResp := r.Bool()
+	h := mcp.NewStreamableHTTPHandler(func(*http.Request) *mcp.Server { return server }, &mcp.StreamableHTTPOptions{JSONResponse: jsonResp})
+	ip := &vhm.InProc{Handler: h, AsyncDelete: true}
+	hdr := map[string]string{"Content-Type": "application/json", "Accept": "application/json, text/event-stream"}
+	st, rh, _, err := ip.Do(ctx, "POST", "http://example.test/mcp", hdr, []byte(fmt.Sprintf(`{"jsonrpc":"2.0","id":"i","method":"initialize","params":{"protocolVersion":%q,"capabilities":{},"clientInfo":{"name":"raw","version":"1"}}}`, version)))
+	if err != nil || st != 200 || rh.Get("Mcp-Session-Id") == "" {
+		c.Inconclusive("initialize: status %d err %v", st, err)
+		return
+	}
+	hdr["Mcp-Session-Id"] = rh.Get("Mcp-Session-Id")
+	hdr["Mcp-Protocol-Version"] = version
+	defer func() {
+		ip.Wait()
+		for ss := range server.Sessions() {
+			ss.Close()
+		}
+		time.Sleep(11 * time.Second)
+	}()
+	ip.Do(ctx, "POST", "http://example.test/mcp", hdr, []byte(`{"jsonrpc":"2.0","method":"notifications/initialized"}`))
+	ids := func(status int, rh http.Header, body []byte) string {
+		var docs [][]byte
+		if strings.HasPrefix(rh.Get("Content-Type"), "text/event-stream") {
+			for _, e := range vhm.ParseSSEBytes(body) {
+				if len(e.Data) > 0 {
+					docs = append(docs, []byte(e.Data))
+				}
+			}
+		} else if len(bytes.TrimSpace(body)) > 0 {
+			docs = append(docs, body)
+		}
+		var got []string
+		for _, d := range docs {
+			var many []struct {
+				ID     json.RawMessage `json:"id"`
+				Result json.RawMessage `json:"result"`
+			}
+			var one struct {
+				ID     json.RawMessage `json:"id"`
+				Result json.RawMessage `json:"result"`
+			}
+			if json.Unmarshal(d, &many) == nil {
+				for _, m := range many {
+					got = append(got, fmt.Sprintf("%s:%v", m.ID, m.Result != nil))
+				}
+			} else if json.Unmarshal(d, &one) == nil && one.ID != nil {
+				got = append(got, fmt.Sprintf("%s:%v", one.ID, one.Result != nil))
+			}
+		}
+		sort.Strings(got)
+		return fmt.Sprintf("%d %v", status, got)
+	}
+	pads := []string{" ", "\n", "\t", "\r\n", " \n\t ", "\n\n"}
+	n := 0
+	bodies := []string{`{"jsonrpc":"2.0","id":%d,"method":"ping"}`, `{"jsonrpc":"2.0","id":%d,"method":"tools/call","params":{"name":"echo","arguments":{}}}`}
+	if version <= "2025-03-26" {
+		bodies = append(bodies, `[{"jsonrpc":"2.0","id":%d,"method":"ping"},{"jsonrpc":"2.0","id":1%[1]d,"method":"tools/list"}]`, `[{"jsonrpc":"2.0","id":%d,"method":"ping"}]`)
+	}
+	for _, tmpl := range bodies {
+		n++
+		plain := fmt.Sprintf(tmpl, 100+n)
+		st0, rh0, b0, err := ip.Do(ctx, "POST", "http://example.test/mcp", hdr, []byte(plain))
+		if err != nil {
+			c.Inconclusive("POST: %v", err)
+			return
+		}
+		want := ids(st0, rh0, b0)
+		lead, trail := pads[r.Intn(len(pads))], r.Choose("", "", " ", "\n")
+		st1, rh1, b1, err := ip.Do(ctx, "POST", "http://example.test/mcp", hdr, []byte(lead+plain+trail))
+		if err != nil {
+			c.Inconclusive("POST: %v", err)
+			return
+		}
+		if got := ids(st1, rh1, b1); got != want {
+			c.Violate("padded-body-answered-differently", "version %s: body %q is answered %s; the same body with leading %q and trailing %q whitespace (still the same JSON value) is answered %s (%s)", version, plain, want, lead, trail, got, trunc80(string(b1)))
+			return
+		}
+		c.Count("padded_bodies", 1)
+	}
+	c.Nontrivial(fmt.Sprintf("padded/%s/%v/%d", version, jsonResp, c.Index))
+}
